@@ -425,3 +425,53 @@ def origin_locals_indexed(body, l, depth=30, seen=None):
                 if a['k'] != 'const':
                     origin_locals_indexed(body, a['pl']['l'], depth - 1, seen)
     return seen
+
+
+def fallible_guards(prog, body, is_test, sinks, depth=2):
+    """Blocks of `body` that guard `sinks` with a test that can fail the function.
+
+    A guard is (a) a call c in `body` with is_test(body, c) from which an error exit of `body` is reachable without passing a sink, or
+    (b) a call to a function of this crate whose own group contains such a test with an error exit (recursively, `depth` levels) and
+    whose failure `body` propagates (an error exit is reachable from the call without passing a sink) - the same check moved into a
+    helper (`self.check_x(..)?;`). Returns the guarding blocks; the caller decides about dominance."""
+    errs = body.error_exit_blocks()
+    out = []
+    for c in body.calls:
+        if not (body.reachable_from([c.bb], avoid=set(sinks)) & errs):
+            continue
+        if is_test(body, c):
+            out.append(c.bb)
+            continue
+        if depth > 0:
+            for cn in prog.callee_bodies(c):
+                cb = prog.bodies[cn]
+                inner = False
+                for g in prog.group(cb.root):
+                    if fallible_guards(prog, g, is_test, (), depth - 1):
+                        inner = True
+                        break
+                if inner:
+                    out.append(c.bb)
+                    break
+    return sorted(set(out))
+
+
+def region_callees(prog, body, region, depth=2, _seen=None):
+    """(call in `region` of `body`, callee body) for every function of this crate entered from the region, `depth` call levels deep
+    (the call site reported for a deeper callee is still the one in `body`): a region of a function, e.g. the arm of a match, keeps
+    its meaning when part of it is moved into a helper."""
+    out = []
+    _seen = set() if _seen is None else _seen
+    for c in body.calls:
+        if region is not None and c.bb not in region:
+            continue
+        for cn in prog.callee_bodies(c):
+            cb = prog.bodies[cn]
+            if cb.rec.get('derived') or cn in _seen:
+                continue
+            _seen.add(cn)
+            for g in prog.group(cb.root):
+                out.append((c, g))
+                if depth > 1:
+                    out.extend((c, g2) for _, g2 in region_callees(prog, g, None, depth - 1, _seen))
+    return out
